@@ -88,7 +88,7 @@ func ReadUint8(r Reader, c *uint8) (n int64, err error) {
 
 // ReadUint8Slice reads a slice of byte from r and stores the result into c.
 func ReadUint8Slice(r Reader, c []uint8) (n int64, err error) {
-	nint, err := r.Read(c)
+	nint, err := io.ReadFull(r, c)
 	return int64(nint), err
 }
 
